@@ -51,12 +51,3 @@ Proof.
   intros n _. rewrite Ha. reflexivity.
 Qed.
 Print Assumptions c11_other_groups_unchanged.
-
-(* ---------- the tie to the source: GeneratedCtl.v is re-derived from the Go source on every run (harness gen --out-ctl);
-   the decisions this property rests on, as the code states them today, are the model's ---------- *)
-From Esc Require Import GeneratedCtl proofs.GenCtlAgree proofs.GenCtlAgree_Dry.
-
-(* controller.go dryMode = the `dry` of scan_group *)
-Theorem c11_src_dry_mode : forall e o, gen_dryMode e o = (e_dry e || o_dry o)%bool.
-Proof. exact gen_dryMode_agree. Qed.
-Print Assumptions c11_src_dry_mode.
